@@ -307,7 +307,7 @@ def init_races(ctx, r):
 def run(ctx):
     import os
     os.environ["GOGC"] = "1"      # stress the Go runtime: collections (and finalizers) inside every lock section
-    framework.check_facts(ctx, ctx.facts, ["with_lock", "lock_sites", "writer_calls", "sections"])
+    framework.check_facts(ctx, ctx.facts, ["with_lock", "lock_sites", "writer_calls", "sections", "open_sites"])
     # T3: every mutating command kind: one exclusive non-blocking lock around read…write, nothing after unlock but the optional reply read
     st = cmdrun.Store(ctx.ergo, ctx.go)
     try:
